@@ -54,7 +54,7 @@ package level
 // each) reaches length.
 //@ func calcBitStorageSize(bits, length) (size)
 //@   split bits in 0..32
-//@   requires 0 <= length && length < 1<<40
+//@   requires 0 <= bits && bits <= 32 && 0 <= length && length < 1<<40
 //@   ensures size == bssize(bits, length)                                            [@value]
 //@   ensures bits == 0 ==> size == 0                                                 [@value]
 //@   ensures bits != 0 ==> size >= 0 && size * (64/bits) >= length && (size == 0 || (size - 1) * (64/bits) < length)   [@value]
@@ -62,7 +62,7 @@ package level
 
 //@ func NewBitStorage(bits, length, data) (b)
 //@   split bits in 0..32
-//@   requires 0 <= length && length < 1<<40
+//@   requires 0 <= bits && bits <= 32 && 0 <= length && length < 1<<40
 //@   panics when bits != 0 && !isnil(data) && len(data) != bssize(bits, length)
 //@   ensures bswf(b) && b.bits == bits && b.length == length                         [@wf]
 //@   ensures bits != 0 ==> all(k, 0, len(b.data), b.data[k] == ite(isnil(data), 0, data[k]))   [@value]
@@ -71,7 +71,7 @@ package level
 
 //@ func (*BitStorage).Fix(b; bits) (err)
 //@   split bits in 0..32
-//@   requires 0 <= b.length && b.length < 1<<40
+//@   requires 0 <= bits && bits <= 32 && 0 <= b.length && b.length < 1<<40
 //@   ensures (err == nil) == (bits == 0 || len(b.data) == bssize(bits, b.length))   [@value]
 //@   ensures err == nil ==> bswf(b) && b.bits == bits                                [@wf]
 //@   ensures b.length == old(b.length) && b.data == old(b.data)                      [@frame]
@@ -181,8 +181,9 @@ package level
 //@   ensures !ok ==> idx == l.bits + 1 && len(l.values) == old(len(l.values)) && len(l.values) == cap(l.values) && all(j, 0, len(l.values), l.values[j] != v)   [@value]
 //@   modifies l.values, l.values[0:cap(l.values)]                                    [@frame]
 
-// hashPalette: ids is the inverse of values
-//@ define hpwf(h) = !isnil(h.ids) && len(h.values) <= cap(h.values) && all(k, 0, len(h.values), has(h.ids, h.values[k]) && h.ids[h.values[k]] == k) && all(u, -4611686018427387904, 4611686018427387904, has(h.ids, u) ==> 0 <= h.ids[u] && h.ids[u] < len(h.values) && int(h.values[h.ids[u]]) == u)
+// hashPalette: every entry of ids points at a slot of values holding its key (so value(id(v)) == v).
+// Duplicate values (possible in a palette read from the wire) are allowed: ids then names the last one.
+//@ define hpwf(h) = !isnil(h.ids) && len(h.values) <= cap(h.values) && all(u, -4611686018427387904, 4611686018427387904, has(h.ids, u) ==> 0 <= h.ids[u] && h.ids[u] < len(h.values) && int(h.values[h.ids[u]]) == u)
 
 //@ func (*hashPalette).id(h; v) (idx, ok)
 //@   requires hpwf(h) && -4611686018427387904 <= int(v) && int(v) < 4611686018427387904
@@ -223,15 +224,19 @@ package level
 //@   ensures Wfail(wk) ==> err != nil                                                [@errprop]
 //@   modifies sink(w)                                                                [@frame]
 
+// Reading into a hashPalette whose index map is not empty would leave stale entries behind
+// (value -> slot of the previous contents): the map must be empty on entry.
 //@ func (*hashPalette).ReadFrom(l; r) (n, err)
 //@   let st = stream(r)
 //@   let p0 = old(Spos(st))
 //@   let k = leb32_run(Sinrow(st), p0)
 //@   let L = int(int32(leb32_val(Sinrow(st), p0, k)))
-//@   requires !isnil(l.ids)
+//@   requires !isnil(l.ids) && all(u, -4611686018427387904, 4611686018427387904, !has(l.ids, u))
 //@   loop 0: modifies l.values[:], stream(r), map(l.ids)
 //@   loop 0: invariant 0 <= i && i <= L && len(l.values) == L && Spos(st) == p0 + n && n >= k && n <= k + 5*i && !Sfail(st)
+//@   loop 0: invariant all(u, -4611686018427387904, 4611686018427387904, has(l.ids, u) ==> 0 <= l.ids[u] && l.ids[u] < i && int(l.values[l.ids[u]]) == u)
 //@   ensures err == nil ==> L >= 0 && len(l.values) == L && Spos(st) == p0 + n && n >= k        [@count @consume]
+//@   ensures err == nil ==> hpwf(l)                                                  [@wf]
 //@   ensures !Sfail(st) && (k > 5 || L < 0) ==> err != nil                          [@reject]
 //@   ensures Sfail(st) ==> err != nil                                                [@errprop]
 //@   modifies l.values, l.values[0:cap(l.values)], stream(r), map(l.ids)                  [@frame]
@@ -251,3 +256,16 @@ package level
 //@   ensures err == nil ==> all(q, 0, 5, q < hl ==> Wout(wk, l0+q) == leb32_byte(uint32(len(l.values)), q))   [@value]
 //@   ensures Wfail(wk) ==> err != nil                                                [@errprop]
 //@   modifies sink(w)                                                                [@frame]
+
+// ---------------------------------------------------------------- PaletteContainer (C12, container level)
+
+//@ func (*PaletteContainer).ReadFrom(p; r) (n, err)
+//@   let st = stream(r)
+//@   let p0 = old(Spos(st))
+//@   requires !isnil(p.config) && !isnil(p.data) && 0 <= p.data.length && p.data.length < 1<<40
+//@   requires 9 <= block.BitsPerBlock && block.BitsPerBlock <= 32 && 4 <= biome.BitsPerBiome && biome.BitsPerBiome <= 32
+//@   requires base(p.data) != base(p) && base(p.data.data) != base(p) && base(p.data.data) != base(p.data) && off(p.data) == 0
+//@   ensures err == nil ==> Spos(st) == p0 + n                             [@consume]
+//@   ensures err == nil ==> bswf(p.data) && p.data.bits == p.bits && !isnil(p.palette)   [@wf]
+//@   ensures Sfail(st) ==> err != nil                                                [@errprop]
+//@   modifies p.bits, p.palette, *p.data, p.data.data[0:cap(p.data.data)], stream(r) [@frame]
